@@ -6,7 +6,7 @@
    an arbitrary storage fault (none / not applied / applied-but-error at any write of any store); the
    history statements quantify over every operation list `ops` from every boot state. *)
 From Coq Require Import String.
-From PDV Require Import lib.Base lib.C14_AList model.C14_Store proof.C14_StoreProof proof.C14_Skel.
+From PDV Require Import lib.Base lib.C14_AList model.C14_Store proof.C14_StoreProof proof.C14_Durable proof.C14_Skel.
 Local Open Scope string_scope.
 Local Open Scope Z_scope.
 
@@ -29,6 +29,13 @@ Theorem C14_tombstone_refused :
     (forall f, run_cmd s (OHeartbeat id f) = (s, RGrpcTombstone)).
 Proof. exact tombstone_refused_pf. Qed.
 
+(* "... unless it was declared physically destroyed": the declaration is recorded and refuses UpStore *)
+Theorem C14_destroyed_is_recorded_and_final :
+  forall s id f s', crashed s = false -> run_cmd s (ORemove id true f) = (s', ROk) ->
+    (exists y, sv s' id = Some y /\ s_state y = Offline /\ s_pd y = true) /\
+    (forall f', run_cmd s' (OUp id f') = (s', RDestroyed)).
+Proof. exact remove_destroyed_pf. Qed.
+
 (* a store becomes tombstone only while no region has a peer on it; the excluded command is the
    direct call of the verification hook (buryStore has exactly one production caller, checkStores:
    proof/C14_Skel.v bury_callers_ok) *)
@@ -44,8 +51,106 @@ Theorem C14_live_addresses_unique :
   forall cv p ops, addr_inv (run_state run_op (boot cv p) ops).
 Proof. exact live_addresses_unique_pf. Qed.
 
+(* ---------- durability ---------- *)
+(* "After every successful change the stored record equals the served record."
+   sproj = the lifecycle/identity fields of the served record (address, state, physically-destroyed,
+   labels, version, weights); stored_proj = what LoadStores rebuilds from the meta record and the two
+   weight keys; agree s id : sproj s id = stored_proj s id.  Stated for every command issued in any
+   state reachable from any boot state; a command counts as successful when it reports no error
+   (check-stores reports nothing), and for the tombstone cleanup also when it stopped at an error
+   (what it removed before is removed on both sides). *)
+Definition C14_success_implies_stored_eq_served_full : Prop := success_full.
+
+(* FALSE of the code as it is: the weights live under two keys of their own. *)
+Theorem C14_success_implies_stored_eq_served_refuted : ~ C14_success_implies_stored_eq_served_full.
+Proof. exact success_refuted_pf. Qed.
+
+(* second, independent witness: the tombstone cleanup leaves the weight keys behind *)
+Theorem C14_success_refuted_by_cleanup :
+  exists s' r, run_cmd (reach (0, 0, 0) boot1 w_cleanup) (OPut false (Payload 1 "a1" Up false [] (Some (4, 0, 0))) NoFault) = (s', r)
+    /\ r = ROk /\ sproj s' 1 <> sproj (reach (0, 0, 0) boot1 w_cleanup) 1 /\ ~ agree s' 1.
+Proof. exact success_refuted_cleanup_pf. Qed.
+
+(* TRUE with the excluded class as a hypothesis: no faulted SetStoreWeight in the history, and no new
+   registration of an id whose weight keys are still in storage (hazard_free); storage faults of
+   both kinds at every other write remain allowed. *)
+Theorem C14_success_implies_stored_eq_served_partial :
+  forall cv p ops o s' r,
+    hazard_free (boot cv p) (ops ++ [o]) -> run_cmd (reach cv p ops) o = (s', r) ->
+    (is_err r = false \/ is_clean o = true) ->
+    forall id, sproj s' id <> sproj (reach cv p ops) id -> agree s' id.
+Proof. exact success_partial_pf. Qed.
+
+(* the meta record alone (everything but the weights) is always in step, with no hypothesis at all:
+   whatever a command changes in the served state is, for that store, exactly what is in storage *)
+Theorem C14_changed_meta_is_stored :
+  forall s o s' r, run_cmd s o = (s', r) -> (is_err r = false \/ is_clean o = true) ->
+    forall id, sproj s' id <> sproj s id -> synced s' id.
+Proof. exact changed_meta_is_stored_pf. Qed.
+
+(* "A failed storage write leaves the served state unchanged." *)
+Definition C14_failed_write_keeps_served_full : Prop := failed_full.
+
+(* FALSE of the code as it is: StoreInfo.MergeLabels edits the served label structs in place before
+   anything is saved. *)
+Theorem C14_failed_write_keeps_served_refuted : ~ C14_failed_write_keeps_served_full.
+Proof. exact failed_refuted_pf. Qed.
+
+(* TRUE for every command in every state when the merge does not touch the served labels
+   (op_merge_inert: forced label updates, new stores, labels that are already there) ... *)
+Theorem C14_failed_write_keeps_served_partial :
+  forall s o s' r, run_cmd s o = (s', r) -> is_err r = true -> is_clean o = false -> op_merge_inert s o ->
+    forall id, sproj s' id = sproj s id.
+Proof. exact failed_partial_pf. Qed.
+
+(* ... and with no hypothesis: a failed command changes nothing but, at most, the labels of the one
+   store a non-forced put / label update was aimed at, and then exactly by MergeLabels' in-place effect *)
+Theorem C14_failed_write_changes_only_merged_labels :
+  forall s o s' r, run_cmd s o = (s', r) -> is_err r = true -> is_clean o = false ->
+    forall id, sproj s' id = sproj s id \/
+               exists old ls, merging o id ls /\ sv s id = Some old /\
+                              sv s' id = Some (with_cells old (snd (merge_labels (s_cells old) (s_cap old) ls))).
+Proof. exact failed_only_labels_pf. Qed.
+
+(* the cleanup that stops at a storage error: every record it touched is gone on both sides *)
+Theorem C14_partial_cleanup_consistent :
+  forall s order f s' r, run_cmd s (OClean order f) = (s', r) -> forall id, sproj s' id = sproj s id \/ synced s' id.
+Proof. exact clean_error_pf. Qed.
+
+(* ---------- non-vacuity ---------- *)
+(* a history with two stores, a fault of each kind, offline -> up -> offline -> tombstone, a refused
+   gRPC re-registration, the cleanup and a re-registration; it satisfies hazard_free *)
+Definition ex_ops : list op :=
+  [OPut true (Payload 2 "a2" Up false [("zone", "z2")] (Some (4, 0, 5))) NoFault;
+   OPut false (Payload 3 "a2" Up false [] (Some (4, 0, 0))) NoFault;            (* duplicate address *)
+   ORegion 1 [1; 2];
+   ORemove 2 false (Fault 2 0 FBefore); ORemove 2 false NoFault; OUp 2 (Fault 2 0 FAfter); OUp 2 NoFault;
+   ORemove 2 true NoFault; OUp 2 NoFault;                                      (* physically destroyed: refused *)
+   OCheck [] NoFault;                                                           (* still holds region 1 *)
+   ORegion 1 [1]; OCheck [2] NoFault;
+   OPut true (Payload 2 "a2" Up false [] (Some (4, 0, 5))) NoFault; OHeartbeat 2 NoFault;
+   OClean [2] NoFault; OPut true (Payload 2 "a2" Up false [] (Some (4, 0, 5))) NoFault].
+Example C14_nonvacuous :
+  map o_res (run run_op (boot (0, 0, 0) boot1) ex_ops) =
+    [ROk; RDupAddr; ROk; RStorage; ROk; RStorage; ROk; ROk; RDestroyed; RNone; ROk; RNone;
+     RGrpcTombstone; RGrpcTombstone; ROk; ROk]
+  /\ map (fun b => map (fun e => (fst e, v_state (snd e))) (o_served b)) (firstn 2 (skipn 11 (run run_op (boot (0, 0, 0) boot1) ex_ops)))
+     = [[(1, Up); (2, Tombstone)]; [(1, Up); (2, Tombstone)]].
+Proof. vm_compute. split; reflexivity. Qed.
+Example C14_nonvacuous_hazard_free : hazard_free (boot (0, 0, 0) boot1) ex_ops.
+Proof. vm_compute. repeat split; intros; try discriminate; auto. Qed.
+
 Print Assumptions C14_state_one_way.
 Print Assumptions C14_tombstone_absorbing.
 Print Assumptions C14_tombstone_refused.
+Print Assumptions C14_destroyed_is_recorded_and_final.
 Print Assumptions C14_bury_only_empty.
 Print Assumptions C14_live_addresses_unique.
+Print Assumptions C14_success_implies_stored_eq_served_refuted.
+Print Assumptions C14_success_refuted_by_cleanup.
+Print Assumptions C14_success_implies_stored_eq_served_partial.
+Print Assumptions C14_changed_meta_is_stored.
+Print Assumptions C14_failed_write_keeps_served_refuted.
+Print Assumptions C14_failed_write_keeps_served_partial.
+Print Assumptions C14_failed_write_changes_only_merged_labels.
+Print Assumptions C14_partial_cleanup_consistent.
